@@ -501,6 +501,13 @@ pub fn run_parse(o: &Opts) -> Report {
               "1e999999999999", "1e-999999999999", "0.000000000000000000000000000000000000000000001e45", "x^", "x^*y", "x^^y", "2^(3", "sin(x))", "((x))", "( ( x ) + ( y ) )", "é", "x\u{2003}+\u{a0}y", "x\u{200b}+y", "１", "x+٣"] {
         cases.push(PCase { arity: 2, items: items2.clone(), src: s.to_string(), expect: None, kind: "corpus" });
     }
+    // 6b. KNOWN FINDING (known_findings.jsonl): a registered name with a case-insensitive nan/inf prefix is
+    // shadowed by the number lexer (nom `double` accepts "inf"/"nan" before names are tried)
+    {
+        let mut items = default_items(2);
+        items.push(CtxItem::Const("info".into()));
+        cases.push(PCase { arity: 2, items, src: "info+1".to_string(), expect: Some(T::Bin('+', Box::new(T::Const("info".into())), Box::new(T::Num("1".into())))), kind: "shadowed-name" });
+    }
     // 7. size: deep nesting and long chains (panic-freedom), powers up to 1e6 and beyond i32
     let mut sizes = vec![50usize, 200, 400];
     if o.thorough { sizes.push(1000); }
@@ -545,7 +552,7 @@ pub fn run_parse(o: &Opts) -> Report {
             }
         }
         // C17 / C06: independent recogniser of the intended grammar
-        match ref_parse(c.arity, &c.items, &c.src) {
+        match if c.kind == "shadowed-name" { Err(()) } else { ref_parse(c.arity, &c.items, &c.src) } {
             Ok(Some(t)) => match out {
                 POut::Ok(s) if *s == t.sexp() => {}
                 POut::Ok(s) => rep.finding("oracle", &["C06"], "tree-differs-from-reference", input.clone(), format!("ref {} impl {}", t.sexp(), s)),
